@@ -401,21 +401,26 @@ SCENARIO_UNITS = {
     'C02': [('consumer_e2e', 1500, 'Consumer + real KafkaClient + codec over a simulated broker (compaction gaps, gzip wrappers in both formats starting before the requested offset, truncation, errors): delivery is a gap-free in-order run of the log from the start position'),
             ('consumer', 400, 'delivery order / no concurrent invocation across fetch replies, retries and compaction gaps')],
     'C04': [('producer_e2e', 4000, 'every produce request a Producer hands to a connection, parsed by an independent reader: header version vs message format, wrapper format vs wrapped messages, correlation id'),
+            ('api_discovery', 1, 'version used by the request that triggers discovery and by later ones, for every discovery outcome (table, unordered sparse table, error with / without table, no answer)'),
             ('magic_fallback', 1, 'message format chosen before the API version is known (Producer._send_requests + failed discovery): deterministic reproducer')],
     'C09': [('producer_e2e', 4000, 'Producer + real KafkaClient + codec over simulated broker connections: acknowledged payloads never re-sent, per-partition order inside every request, transmissions bounded by the attempt limit')],
     'C19': [('producer_e2e', 4000, 'Producer + real KafkaClient over simulated broker connections: no produce request reaches a connection after stop()')],
     'C01': [('producer_e2e', 4000, 'Producer + real KafkaClient + codec over simulated broker connections answering ok / error codes / dropping / staying silent, leader moves, cancellations: success only with an error-free acknowledgement from the leader of exactly those messages, result names topic and partition, fires exactly once'),
             ('broker_aware', 300, 'KafkaClient._send_broker_aware_request with acks=0/1 and failing brokers (polymorphic @inlineCallbacks code)')],
     'C07': [('broker_aware', 300, 'every payload routed to its leader / the coordinator, one request per broker with exactly its payloads, responses in payload order whatever order brokers answer in, failed payloads accounted for exactly once, no request when a payload has no leader'),
-            ('broker_unaware', 1, 'fallback order of broker-agnostic requests: connected brokers, other known brokers, every bootstrap host, then unavailable')],
+            ('broker_unaware', 1, 'fallback order of broker-agnostic requests: connected brokers, other known brokers, every bootstrap host, then unavailable'),
+            ('metadata_merge', 300, 'an existing broker connection is told the address the current metadata names for its node (requests would otherwise keep going to the old address)')],
     'C20': [('client_close', 400, 'nested close aggregates (_close_brokerclients) across metadata refreshes and close()'),
             ('bootstrap_close', 1, 'operation pending on a bootstrap connection attempt at close(): deterministic reproducer'),
             ('bootstrap_late_events', 1, 'bootstrap connection attempt resolving after close(): nothing written, no new attempt or timer, connection dropped')],
     'C08': [('metadata_merge', 300, '_merge_topic_metadata / reset_topic_metadata / _update_brokers (dict-of-dict code with KeyError control flow): topic view, broker addresses, connections closed by a full refresh only'),
             ('handle_responses', 1, '_handle_responses: which answers invalidate which cached routing'),
             ('broker_aware', 300, 'a failed send invalidates the cached routing')],
-    'C06': [('brokerclient', 300, 'close()/cancel/response interleavings with re-entrant cancellation from callbacks')],
-    'C15': [('assignment', 300, '_round_robin_assignment (sets, itertools.cycle, nested defaultdict) over member-order permutations')],
+    'C10': [('brokerclient', 600, 'real _KafkaBrokerClient over mock connections with correlation ids that do not ascend: every unanswered request re-sent once per connection, in the order issued')],
+    'C06': [('frames', 1, 'real KafkaProtocol over a StringTransport: impossible announced lengths drop the connection, legal frames are delivered once, for every chunking (exhaustive over the listed cases)'),
+            ('brokerclient', 300, 'close()/cancel/response interleavings with re-entrant cancellation from callbacks')],
+    'C15': [('group', 400, 'the leader path end to end: the assignment sent in SyncGroup covers the CURRENT partitions of the subscribed topic exactly once across rebalances with a changing partition map'),
+            ('assignment', 300, '_round_robin_assignment (sets, itertools.cycle, nested defaultdict) over member-order permutations')],
     'C18': [('partitioner', 300, 'round-robin fairness counted over k*n-selection windows with in-place and replaced lists (the per-step cycle contract is proved; the window count is its arithmetic consequence, not machine-checked); pure_murmur2 re-compared natively with the Java transcription')],
     'C16': [('group', 400, 'ConsumerGroup consumer creation/teardown and requests after stop across the @inlineCallbacks join sequence')],
     'C17': [('group', 400, 'never-idle oracle over generated fault sequences')],
